@@ -2,20 +2,24 @@
 import specs
 from specs import graph_property
 
-RESET = dict(name="Reset", m="none", chain="none", kind="none", naming="none", o="none", s="none", n=0, x=[], res="ok")
+RESET = dict(name="Reset", m="none", chain="none", kind="none", naming="none", fate="none", o="none", s="none", n=0, x=[], res="ok")
 FORMULAS = dict(
     invariants=[],
-    properties=["C10_OnlyDirectCaller", "C10_AllowanceBound", "C10_WriteNeedsCall", "C10_DisabledNeverRuns", "C10_RefusedIsNoop"],
-    p_properties=["P_C10_OnlyDirectCaller", "P_C10_AllowanceBound", "P_C10_WriteNeedsCall", "P_C10_DisabledNeverRuns", "P_C10_RefusedIsNoop"])
+    properties=["C10_OnlyDirectCaller", "C10_AllowanceBound", "C10_WriteNeedsCall", "C10_DisabledNeverRuns", "C10_RefusedIsNoop", "C10_RevertedIsNoop"],
+    p_properties=["P_C10_OnlyDirectCaller", "P_C10_AllowanceBound", "P_C10_WriteNeedsCall", "P_C10_DisabledNeverRuns", "P_C10_RefusedIsNoop",
+                  "P_C10_RevertedIsNoop"])
 
 STAKING = ["delegateV2", "undelegateV2", "redelegateV2", "withdraw", "approveShares", "transferShares", "transferFromShares"]
 CROSS = ["crossChain", "bridgeCall", "cancelSendToExternal", "increaseBridgeFee", "executeClaim"]
 ALL = STAKING + CROSS + ["delegation"]
 
 
-def consts(methods, switches, amts, maxapp):
+def consts(methods, switches, amts, maxapp, maxslash=1, slashswitch=0):
     # switches: name of the operator in CallerMC.tla that defines the set of switch settings (sequences of entries)
-    return dict(consts=dict(Method=methods, ApproveAmt=amts, MaxCall=1, MaxApprove=maxapp), overrides=dict(SwitchVal=switches))
+    # maxslash: validator 0 may be slashed (by one half) that often; slashed states are combined with switch settings of
+    # at most `slashswitch` entries
+    return dict(consts=dict(Method=methods, ApproveAmt=amts, MaxCall=1, MaxApprove=maxapp, MaxSlash=maxslash, SlashSwitchLen=slashswitch),
+                overrides=dict(SwitchVal=switches))
 
 
 def mc(name, tiers, c, **kw):
@@ -35,18 +39,23 @@ DEV = consts(["transferFromShares", "crossChain", "delegation"], "SwitchDev", [2
 QUICK = consts(ALL, "SwitchQuick", [1, 2, 3], 1)
 # thorough: every method also as switch setting (one grant); and, for the share methods, two successive grants
 # (overwrites, grants to two spenders, grants by two owners)
-THOROUGH = consts(ALL, "SwitchThorough", [1, 2, 3], 1)
-GRANTS2 = consts(["transferFromShares", "transferShares", "approveShares", "delegation"], "SwitchOff", [1, 3], 2)
+# thorough: slashed states are combined with every single-entry switch setting as well
+THOROUGH = consts(ALL, "SwitchThorough", [1, 2, 3], 1, maxslash=1, slashswitch=1)
+GRANTS2 = consts(["transferFromShares", "transferShares", "approveShares", "delegation"], "SwitchOff", [1, 3], 2, maxslash=1)
+# two successive slashes (one token = 4 shares): the staking methods with one grant
+SLASH2 = consts(STAKING + ["delegation"], "SwitchOff", [1, 2, 3], 1, maxslash=2)
 
 MC = [mc("dev", ["dev"], DEV), mc("quick", ["quick"], QUICK), mc("thorough", ["thorough"], THOROUGH, timeout=2400),
-      mc("grants2", ["thorough"], GRANTS2, timeout=2400)]
+      mc("grants2", ["thorough"], GRANTS2, timeout=2400), mc("slash2", ["thorough", "slash2"], SLASH2, timeout=2400)]
 GEN = [cfg("dev", ["dev"], DEV, shards=4), cfg("quick", ["quick"], QUICK), cfg("thorough", ["thorough"], THOROUGH, shards=16, timeout=2400),
-       cfg("grants2", ["thorough"], GRANTS2, shards=16, timeout=2400)]
+       cfg("grants2", ["thorough"], GRANTS2, shards=16, timeout=2400), cfg("slash2", ["thorough", "slash2"], SLASH2, shards=16, timeout=2400)]
 
 ASSUMPTIONS = [
     "one validator (0) carries the share portfolios, validator 1 is the redelegation target; every method moves 2 units (crossChain fee 1, parked deposits 3)",
     "one accepted precompile call per behaviour (MaxCall = 1) from every reachable combination of switch setting and allowance grants; chains of calls are C09's / C11's subject",
     "transfers of shares to oneself are left to C11 (Shares.tla)",
+    "frames are undone by REVERT after the precompile returned (the direct caller reverts and the failure reaches the transaction / is caught by the calling contract, or the calling contract reverts after the direct caller completed), last hop CALL; exceptional halts and gas exhaustion are C09's subject",
+    "validator 0 is slashed by one half of its consensus power at most once (twice in the thorough configuration slash2) through the staking keeper's Slash, as the evidence handler calls it when a block begins (its stake is a whole multiple of 400 FX, so the rate is exactly 2 / 4 shares per token); slashed states are combined with the empty switch (quick) / the single-entry settings (thorough)",
     "increaseBridgeFee / cancelSendToExternal act on pooled FX transfers (origin token, msg.value): the ERC-20 leg of increaseBridgeFee cannot succeed on this tree",
     "transactions are executed at keeper level (no fee deduction), rewards are sub-unit amounts: FX balances are compared in whole units plus a 'received a fraction' flag",
     "the governance switch is set by MsgUpdateSwitchParams through the message router with the governance module address as authority (proposal flow: C15/C16)",
@@ -61,7 +70,7 @@ def run(work, args):
 specs.REGISTRY["C10"] = run
 specs.MANIFEST.update({
     "C10": dict(category="model_checking",
-                technique="TLA+ spec Caller.tla (account portfolios, call chain, call instruction, argument naming, allowances, governance switch): TLC exhaustive model check + every generated transition (accepted and rejected) executed as a real EVM transaction through assembled caller contracts + TLC evaluation of the C10 formulas on recorded real behaviours",
-                text="Caller.tla models what each state-changing method of the staking and cross-chain precompiles does to the portfolios of four accounts (FX, ERC-20, coin, shares, rewards, allowances, unbonding, redelegation, pooled transfers, bridge calls, parked deposits) as a function of the direct caller, the call instruction of the last hop (CALL/STATICCALL/DELEGATECALL/CALLCODE), whom the arguments name, the allowances and the governance switch. The complete product is executed on the real application (direct call, through one and through two contracts) and every account's portfolio is read back from the stores; the formulas OnlyDirectCaller, AllowanceBound, WriteNeedsCall, DisabledNeverRuns, RefusedIsNoop are evaluated on all recorded real transitions.",
+                technique="TLA+ spec Caller.tla (account portfolios, call chain, call instruction, argument naming, fate of the calling frames, allowances, validator exchange rate, governance switch): TLC exhaustive model check + every generated transition (accepted and rejected) executed as a real EVM transaction through assembled caller contracts + TLC evaluation of the C10 formulas on recorded real behaviours",
+                text="Caller.tla models what each state-changing method of the staking and cross-chain precompiles does to the portfolios of four accounts (FX, ERC-20, coin, shares, rewards, allowances, unbonding, redelegation, pooled transfers, bridge calls, parked deposits) as a function of the direct caller, the call instruction of the last hop (CALL/STATICCALL/DELEGATECALL/CALLCODE), whom the arguments name, whether the calling frames survive (commit / the direct caller reverts after the call, caught or not / its parent reverts), the allowances, the exchange rate of the validator (slashed by one half: token-denominated methods move 2^k shares, allowances stay in shares) and the governance switch. The complete product is executed on the real application (direct call, through one and through two contracts) and every account's portfolio is read back from the stores; the formulas OnlyDirectCaller, AllowanceBound, WriteNeedsCall, DisabledNeverRuns, RefusedIsNoop, RevertedIsNoop are evaluated on all recorded real transitions.",
                 note="bounded: four accounts, one validator, fixed amounts, one precompile call per behaviour, <=2 allowance grants; trusted: TLC, the portfolio read-back, go-ethereum's dispatch of call kinds", ref="5 (C10)"),
 })
